@@ -509,13 +509,21 @@ class IMAPClient:
             self.ibuffer = []
             self.ibuffer_size = 0
             client_connected = True
+
+            # When a command has been refused because it is too big, the rest
+            # of that command (further literals that are already on the wire,
+            # the text after them) still arrives. `discard` is True while we
+            # are swallowing the rest of a refused command so that none of it
+            # is mistaken for a command of its own.
+            #
+            discard = False
             while client_connected:
                 # Read until b'\r\n'. Trim off the '\r\n'. If the message is
                 # not of 0 length then append it to our incremental buffer.
                 #
                 msg = await self.reader.readuntil(self.LINE_TERMINATOR)
                 msg = msg.rstrip()
-                if msg:
+                if msg and not discard:
                     self.ibuffer.append(msg)
                     self.ibuffer_size += len(msg)
 
@@ -523,7 +531,7 @@ class IMAPClient:
                 # buffer is empty then this is an empty message from the client
                 # and that is an error.
                 #
-                if not self.ibuffer:
+                if not self.ibuffer and not discard:
                     await self.push(
                         b"* BAD We do not accept empty messages.\r\n"
                     )
@@ -534,30 +542,76 @@ class IMAPClient:
                 m = RE_LITERAL_STRING_START.search(msg)
                 if m:
                     literal_str_length = int(m.group(1))
+                    non_synchronizing = bool(m.group(2))
+                    already_refused = discard
 
-                    # Reject literals that exceed the maximum input
-                    # size to prevent memory exhaustion.
+                    # Reject literals that exceed the maximum input size, or
+                    # that would make the command exceed it, to prevent memory
+                    # exhaustion.
                     #
-                    if literal_str_length > MAX_INPUT_SIZE:
-                        logger.warning(
-                            "%s: literal size %d exceeds maximum "
-                            "of %d, rejecting",
-                            self.name,
-                            literal_str_length,
-                            MAX_INPUT_SIZE,
-                        )
-                        await self.push(
-                            b"* BAD literal size exceeds maximum "
-                            b"allowed size\r\n"
-                        )
+                    if not discard and (
+                        literal_str_length > MAX_INPUT_SIZE
+                        or self.ibuffer_size + literal_str_length + 2
+                        > MAX_INPUT_SIZE
+                    ):
+                        if literal_str_length > MAX_INPUT_SIZE:
+                            logger.warning(
+                                "%s: literal size %d exceeds maximum "
+                                "of %d, rejecting",
+                                self.name,
+                                literal_str_length,
+                                MAX_INPUT_SIZE,
+                            )
+                            await self.push(
+                                b"* BAD literal size exceeds maximum "
+                                b"allowed size\r\n"
+                            )
+                        else:
+                            logger.warning(
+                                "%s: command buffer size %d exceeds "
+                                "maximum of %d, rejecting",
+                                self.name,
+                                self.ibuffer_size + literal_str_length + 2,
+                                MAX_INPUT_SIZE,
+                            )
+                            await self.push(
+                                b"* BAD command exceeds maximum allowed size\r\n"
+                            )
                         self.ibuffer = []
                         self.ibuffer_size = 0
+                        discard = True
+
+                    if discard:
                         # NOTE: The line terminator that follows the literal
-                        #       declaration was already read above. A client
-                        #       does not send a synchronizing literal without
-                        #       our go-ahead, so what it sends next is its
-                        #       next command.
+                        #       declaration was already read above.
                         #
+                        if non_synchronizing:
+                            # The octets of a non-synchronizing literal are
+                            # already on their way (rfc7888). Consume them so
+                            # they are not taken for commands. What follows
+                            # them is the rest of the refused command.
+                            #
+                            remaining = literal_str_length
+                            while remaining > 0:
+                                chunk = await self.reader.read(
+                                    min(remaining, self.stream_buffer_size)
+                                )
+                                if not chunk:
+                                    raise asyncio.IncompleteReadError(b"", None)
+                                remaining -= len(chunk)
+                        else:
+                            # A client does not send a synchronizing literal
+                            # without our go-ahead, so the refused command
+                            # ends here: what it sends next is its next
+                            # command. If the client got this far in a
+                            # command we refused earlier on, it is waiting
+                            # for that go-ahead: tell it again.
+                            #
+                            if already_refused:
+                                await self.push(
+                                    b"* BAD command exceeds maximum allowed size\r\n"
+                                )
+                            discard = False
                         continue
 
                     # If this is a synchronizing string literal (does not have
@@ -565,7 +619,7 @@ class IMAPClient:
                     # we need to tell the IMAP client that it can proceed to
                     # send us the string literal.
                     #
-                    if not m.group(2):
+                    if not non_synchronizing:
                         await self.push(b"+ Ready for more input\r\n")
 
                     # Read the string literal.
@@ -580,27 +634,16 @@ class IMAPClient:
                     self.ibuffer.append(msg)
                     self.ibuffer_size += len(msg) + 2
 
-                    # Check accumulated ibuffer size after adding the
-                    # literal.
-                    #
-                    if self.ibuffer_size > MAX_INPUT_SIZE:
-                        logger.warning(
-                            "%s: command buffer size %d exceeds "
-                            "maximum of %d, rejecting",
-                            self.name,
-                            self.ibuffer_size,
-                            MAX_INPUT_SIZE,
-                        )
-                        await self.push(
-                            b"* BAD command exceeds maximum allowed size\r\n"
-                        )
-                        self.ibuffer = []
-                        self.ibuffer_size = 0
-                        continue
-
                     # Loop back to read what is either a b'\r\n' or maybe
                     # another string literal.
                     #
+                    continue
+
+                # This line ends a command. If it was the end of a command we
+                # refused, we are back in sync with the client.
+                #
+                if discard:
+                    discard = False
                     continue
 
                 # Check accumulated ibuffer size before assembling.
